@@ -78,20 +78,29 @@ Definition fname_eqb (a b : fname) : bool :=
 Record proto := mkProto {
   atomic_marker : bool;      (* C25-1a: marker via temporary file + os.replace *)
   marker_last : bool;        (* C25-1b: marker written after energy and minisanity history *)
-  invalidate : bool          (* C25-2: strategy latest removes the marker before overwriting in place *)
+  invalidate : bool;         (* C25-2: strategy latest removes the marker before overwriting in place *)
+  prepare_all : bool         (* the seed schedule is prepared `for iglobal in range(total_iterations)`
+                                (the code as it is); false = a variant that starts at initial_index *)
 }.
-Definition fixed_proto : proto := mkProto true true true.
-Definition old_proto : proto := mkProto false false false.
+Definition fixed_proto : proto := mkProto true true true true.
+Definition old_proto : proto := mkProto false false false true.
+(* a defective variant (not the history of the code): seed schedule prepared from initial_index on *)
+Definition cut_schedule_proto : proto := mkProto true true true false.
 
 Section Driver.
-Variables M R E H : Type.
+Variables M R E H Seed : Type.
 Definition St : Type := (M * list R)%type.
-Variable step : nat -> St -> St.
+(* one iteration of the driver given the seed sequence pushed for it (`push_sseq(sseqs[iglobal])`) *)
+Variable step : nat -> Seed -> St -> St.
 Variable estep : nat -> St -> E -> E.
 Variable hstep : nat -> St -> H -> H.
 Variable init : St.
 Variable e0 : E.
 Variable h0 : H.
+(* `sseqs = spawn_sseq(total_iterations)`: child i of the random state saved by the first run (the
+   resume branch restores that state before spawning, so the children are the same in every run) *)
+Variable raw : nat -> Seed.
+Variable fresh : nat -> bool.        (* fresh_stochasticity(iglobal) *)
 
 Inductive payload :=
 | PInt (i : nat) | PRng | PRes (r : R) | PMean (m : M) | PE (e : E) | PH (h : H) | PLog.
@@ -201,12 +210,41 @@ Definition ops2 (i : nat) (st' : St) (h' : H) : list op :=
   dump (MHist (slot_of sg i)) (PH h')
   ++ (if marker_last pr then marker_ops i else []) ++ append_log CountLog.
 
+(* ---- the seed schedule ----
+       sseqs = spawn_sseq(total_iterations)
+       for iglobal in range(total_iterations):
+           if not fresh_stochasticity(iglobal):
+               if iglobal == 0: raise ValueError(...)
+               sseqs[iglobal] = SeedSequence(sseqs[iglobal-1].entropy, spawn_key=..., pool_size=...)  *)
+Fixpoint set_nth (i : nat) (x : Seed) (l : list Seed) : list Seed :=
+  match l, i with
+  | [], _ => []
+  | _ :: t, O => x :: t
+  | a :: t, S j => a :: set_nth j x t
+  end.
+
+Definition raws (n : nat) : list Seed := map raw (seq 0 n).
+
+(* `for iglobal in range(i, i + fuel)`; None = ValueError *)
+Fixpoint prepare (fuel i : nat) (sq : list Seed) : option (list Seed) :=
+  match fuel with
+  | O => Some sq
+  | S f =>
+      if fresh i then prepare f (S i) sq
+      else match i with
+           | O => None
+           | S j => prepare f (S i) (set_nth i (nth j sq (raw 0)) sq)
+           end
+  end.
+
+Definition seed_at (sq : list Seed) (i : nat) : Seed := nth i sq (raw 0).
+
 (* `for iglobal in range(initial_index, total_iterations)`; fuel = total - initial_index *)
-Fixpoint loop (fuel i : nat) (st : St) (eh : E) (d : disk) {struct fuel} : list op * outcome :=
+Fixpoint loop (sq : list Seed) (fuel i : nat) (st : St) (eh : E) (d : disk) {struct fuel} : list op * outcome :=
   match fuel with
   | O => ([], Ok st)
   | S f =>
-      let st' := step i st in
+      let st' := step i (seed_at sq i) st in
       let eh' := estep i st' eh in
       let o1 := ops1 i st' eh' in
       let d1 := run_ops o1 d in
@@ -217,7 +255,7 @@ Fixpoint loop (fuel i : nat) (st : St) (eh : E) (d : disk) {struct fuel} : list 
       match snd rd with
       | Some (PH h) =>
           let o := o1 ++ fst rd ++ ops2 i st' (hstep i st' h) in
-          let r := loop f (S i) st' eh' (run_ops o d) in
+          let r := loop sq f (S i) st' eh' (run_ops o d) in
           (o ++ fst r, snd r)
       | _ => (o1 ++ fst rd, Stuck)
       end
@@ -289,11 +327,20 @@ Definition run (resume : bool) (n : nat) (d : disk) : list op * outcome :=
     | None => (prelude ++ fst rs, Stuck)
     | Some (st, eh, i0) =>
         let o := prelude ++ fst rs in
-        let r := loop (n - i0) i0 st eh (run_ops o d) in (o ++ fst r, snd r)
+        if Nat.eqb i0 n then (o, Ok st)             (* `return (sl, mean)` before the schedule is prepared *)
+        else
+          let from := if prepare_all pr then 0 else i0 in
+          match prepare (n - from) from (raws n) with
+          | None => (o, Stuck)
+          | Some sq => let r := loop sq (n - i0) i0 st eh (run_ops o d) in (o ++ fst r, snd r)
+          end
     end
   else
     let o := prelude ++ dump RandomState PRng in
-    let r := loop n 0 init e0 (run_ops o d) in (o ++ fst r, snd r).
+    match prepare n 0 (raws n) with
+    | None => (o, Stuck)
+    | Some sq => let r := loop sq n 0 init e0 (run_ops o d) in (o ++ fst r, snd r)
+    end.
 
 Definition crashed (resume : bool) (n : nat) (d : disk) (k : nat) (lost : bool) : disk :=
   crash k lost (fst (run resume n d)) d.
@@ -372,21 +419,24 @@ Section Instance.
 Variable pr : proto.
 Variable sg : strategy.
 Variable nres : list nat.      (* observed: number of residual files written in iteration i *)
+Variable freshl : list bool.   (* fresh_stochasticity(i) of the configuration (true beyond the list) *)
 
 (* symbolic states: the mean is a number (binary, N) computed from everything the step depends
    on, so that a mixture of two iterations gives a different number than any state of the
    uninterrupted run *)
 Definition ist : Type := (N * list N)%type.
-Definition istep (i : nat) (st : ist) : ist :=
-  let h := (1 + N.of_nat i + 3 * fst st + 5 * fold_left (fun a x => 2 * a + x) (snd st) 7)%N in
+Definition istep (i : nat) (sd : N) (st : ist) : ist :=
+  let h := (1 + N.of_nat i + 13 * sd + 3 * fst st + 5 * fold_left (fun a x => 2 * a + x) (snd st) 7)%N in
   (h, map (fun k => (11 * h + N.of_nat k)%N) (seq 0 (nth i nres 0))).
 Definition iestep (i : nat) (st : ist) (e : list N) : list N := e ++ [fst st].
 Definition ihstep (i : nat) (st : ist) (h : list N) : list N := h ++ [(N.of_nat i + fst st)%N].
 Definition iinit : ist := (0%N, []).
 
 Definition idisk := disk N N (list N) (list N).
-Definition irun := run N N (list N) (list N) istep iestep ihstep iinit [] [] pr sg.
-Definition ichain := chain N N (list N) (list N) istep iestep ihstep iinit [] [] pr sg.
+Definition iraw (i : nat) : N := (17 + 19 * N.of_nat i)%N.
+Definition ifresh (i : nat) : bool := nth i freshl true.
+Definition irun := run N N (list N) (list N) N istep iestep ihstep iinit [] [] iraw ifresh pr sg.
+Definition ichain := chain N N (list N) (list N) N istep iestep ihstep iinit [] [] iraw ifresh pr sg.
 Definition itrace := trace N N (list N) (list N).
 
 (* observation of one file: unloadable | loadable | a marker file holding the integer j |
